@@ -248,9 +248,11 @@ def queries(tier):
                         hints={"wrapped": {"write_discard": 0, "read_discard": 0}},
                         desc="reachability twins (commit, rollback, wrap-around, full/empty corner requests)"))
         if depth >= 2:
-            qs.append(Query(f"bmc_plain_{tag}", f, 2 * depth + (10 if quick else 14), covers=[], layer=plain, split=False,
-                            timeout=600, desc="restricted layer: both commits tied to 1 and no discards (the degraded "
-                                              "non-transactional mode the class documents), deeper wrap-around"))
+            Kp = 2 * depth + 10 if quick else min(2 * depth + 11, 17)
+            qs.append(Query(f"bmc_plain_{tag}", f, Kp, covers=[], layer=plain, split=False,
+                            timeout=600 if depth <= 3 else 240, required=depth <= 3,
+                            desc="restricted layer: both commits tied to 1 and no discards (the degraded "
+                                 "non-transactional mode the class documents), deeper wrap-around"))
         qs.append(Query(f"ind_{tag}", f, 1, kind="ind", invariants=_inv, timeout=600,
                         desc=f"{tag}: 1-step induction from an arbitrary state (all histories) with pointer/count/store invariants"))
         qs.append(Query(f"cosim_{tag}", f, 0, kind="cosim", cosim_cycles=200 if quick else 1000))
